@@ -121,6 +121,16 @@ func GenC07(seed uint64) *Scenario {
 		}
 		s.History = append(s.History, h)
 	}
+	if r.Chance(1, 4) {
+		// transient object-store faults while the requests run: the engine's retry loops must absorb them
+		s.Family = "cache_subsets_io_faults"
+		s.Rates = map[string]int{}
+		kinds := []string{"io_err_read", "short_read", "io_err_write", "lost_ack", "io_err_list", "io_err_exists"}
+		n := r.Range(1, 3)
+		for i := 0; i < n; i++ {
+			s.Rates[kinds[r.Intn(len(kinds))]] = []int{5, 15, 30}[r.Intn(3)]
+		}
+	}
 	fixHead(s)
 	return s
 }
